@@ -101,6 +101,19 @@ func verifHookNewSubConn() {
 var verifBindArmed int32
 var verifBindParked = make(chan chan struct{}, 1)
 
+// third hook: in detectUnresponsive between the started-after-the-last-response test and the increment of the
+// deadline-exceeded counter, where these are separate steps (see bin/overlay.py)
+var verifDetectArmed int32
+var verifDetectParked = make(chan chan struct{}, 1)
+
+func verifHookDetect() {
+	if atomic.CompareAndSwapInt32(&verifDetectArmed, 1, 0) {
+		rel := make(chan struct{})
+		verifDetectParked <- rel
+		<-rel
+	}
+}
+
 func verifHookBind() {
 	if atomic.CompareAndSwapInt32(&verifBindArmed, 1, 0) {
 		rel := make(chan struct{})
@@ -1109,6 +1122,53 @@ func (h *vPool) doDone2(a map[string]string) string {
 	cb, okb := h.calls[idb]
 	if !oka || !okb || ida == idb {
 		return "bad-op"
+	}
+	if a["park"] == "1" {
+		// a: ends with a client-side deadline error and is stopped between the detector's test "started after the
+		// last response" and its increment; b: completes successfully meanwhile (a response); then a continues
+		if !verifDetectHookInstalled {
+			return "bad-op"
+		}
+		delete(h.calls, ida)
+		delete(h.calls, idb)
+		for _, c := range []*vCall{ca, cb} {
+			if c.reply != nil {
+				c.reply.Key, c.reply.Keys = "", nil
+			}
+		}
+		atomic.StoreInt32(&verifDetectArmed, 1)
+		doneA := make(chan string, 1)
+		go func() {
+			doneA <- guarded(func() string {
+				ca.done(balancer.DoneInfo{Err: status.Error(codes.DeadlineExceeded, context.DeadlineExceeded.Error()), BytesSent: true})
+				return "ok"
+			})
+		}()
+		var rel chan struct{}
+		first := ""
+		select {
+		case rel = <-verifDetectParked:
+		case first = <-doneA: // the detector did not get that far (detection off, not past its deadline, …)
+		case <-time.After(3 * time.Second):
+			return "HANG"
+		}
+		atomic.StoreInt32(&verifDetectArmed, 0)
+		rb := guarded(func() string {
+			cb.done(balancer.DoneInfo{BytesSent: true, BytesReceived: true})
+			return "ok"
+		})
+		if rel != nil {
+			close(rel)
+			select {
+			case first = <-doneA:
+			case <-time.After(3 * time.Second):
+				return "HANG"
+			}
+		}
+		if first != "ok" {
+			return first
+		}
+		return rb
 	}
 	delete(h.calls, ida)
 	delete(h.calls, idb)
